@@ -447,7 +447,8 @@ theorem repDigits_length (b r : Nat) : (repDigits b r).length ≤ r + 1 := by
     · simp [hq]
     · simp only [hq, ↓reduceDIte, List.length_cons]
       have hle : r / 2 ^ b ≤ r := Nat.div_le_self _ _
-      have := ih (r / 2 ^ b - 1) (by omega)
+      generalize r / 2 ^ b = q at hq hle ⊢
+      have := ih (q - 1) (by omega)
       omega
 
 theorem writeRepsZeros_length (reps : Nat) (h1 : 1 ≤ reps) :
@@ -455,7 +456,7 @@ theorem writeRepsZeros_length (reps : Nat) (h1 : 1 ≤ reps) :
   unfold writeRepsZeros
   by_cases h11 : reps = 11
   · subst h11
-    have := repDigits_length 3 7
+    have := repDigits_length 3 (10 - 3)
     simp only [↓reduceIte, show ¬ (10 < 3) by decide, List.length_append, List.length_cons,
       List.length_nil, List.length_map, List.length_reverse]
     omega
@@ -470,7 +471,7 @@ theorem writeRepsTail_length (v r : Nat) : (writeRepsTail v r).length ≤ r := b
   unfold writeRepsTail
   by_cases h7 : r = 7
   · subst h7
-    have := repDigits_length 2 3
+    have := repDigits_length 2 (6 - 3)
     simp only [↓reduceIte, show ¬ (6 < 3) by decide, List.length_append, List.length_cons,
       List.length_nil, List.length_map, List.length_reverse]
     omega
@@ -516,11 +517,11 @@ theorem writeLoop_length (useNZ useZ : Bool) :
         rw [List.length_drop, ← hn, hlen']; omega
       have hd : (rest.drop (reps - 1)).length = rest.length - (reps - 1) := List.length_drop
       by_cases hv0 : v = 0
-      · simp only [hv0, ↓reduceIte, List.length_append]
+      · simp only [hv0, ↓reduceIte, List.length_append, List.length_cons]
         have h1 := writeRepsZeros_length reps hreps1
         have h2 := ih _ hdl _ rfl (by omega) prev
         omega
-      · simp only [hv0, ↓reduceIte, List.length_append]
+      · simp only [hv0, ↓reduceIte, List.length_append, List.length_cons]
         have h1 := writeReps_length prev v reps hreps1 (by omega)
         have h2 := ih _ hdl _ rfl (by omega) v
         omega
